@@ -40,15 +40,69 @@ def spell(rng, value, how):
     return value.swapcase()
 
 
+_VALUE_NAMES = {}
+
+
+def value_names(version, metric):
+    """English names of the metric's values as the tree displays them (e.g. 'Network'), those that
+    are not themselves legal answers."""
+    key = (version, metric)
+    if key not in _VALUE_NAMES:
+        import importlib
+
+        try:
+            mod = importlib.import_module("cvss.constants" + spec._MAJOR[version])
+            names = [str(n) for n in mod.METRICS_VALUE_NAMES[metric].values()]
+        except Exception:
+            names = []
+        _VALUE_NAMES[key] = [n for n in names if len(n) > 1 and spec.classify(version, metric, n)[0] == "refuse"]
+    return _VALUE_NAMES[key]
+
+
 def illegal_answer(rng, version, metric):
     """A 'definitely illegal' answer (classify() == refuse), of a drawn kind."""
     sp = spec.SPECS[version]
     legal = sp.values[metric]
     kinds = ["other_metric_value", "prefix", "plus_char", "two_values", "metric_colon", "wrong_nd",
-             "garbage", "long", "nonascii", "digit", "padded_garbage", "inner_space", "suffix"]
+             "garbage", "long", "nonascii", "digit", "padded_garbage", "inner_space", "suffix",
+             "wrapped", "value_name", "first_token", "homoglyph", "position"]
     for _ in range(12):
         kind = rng.choice(kinds)
-        if kind == "other_metric_value":
+        if kind == "wrapped":
+            # a legal value in the punctuation the hints show it in, or with a sentence mark
+            v = spell(rng, rng.choice(legal), rng.choice(["canonical", "lower"]))
+            a, b = rng.choice([("(", ")"), ("[", "]"), ("'", "'"), ("\"", "\""), ("<", ">"), ("", "."), ("", ","), ("", ";"),
+                               ("", "!"), ("", "?"), ("-", ""), ("=", ""), ("*", "*")])
+            cand = a + v + b
+        elif kind == "value_name":
+            # the value's full English name or a prefix of it (taken from the tree's display table:
+            # presentation data, used here only as something a user might type)
+            names = value_names(version, metric)
+            if not names:
+                continue
+            name = rng.choice(names)
+            cut = rng.choice([len(name), 3, 4, 2])
+            cand = spell(rng, name[:max(2, cut)], rng.choice(["canonical", "lower", "upper"]))
+        elif kind == "first_token":
+            v = spell(rng, rng.choice(legal), rng.choice(["canonical", "lower"]))
+            cand = v + rng.choice([" foo", " " + rng.choice(legal), "\tx", " !", "\x00", "\x00N", " #1"])
+        elif kind == "homoglyph":
+            # letters that merely look like ASCII letters (Cyrillic, Greek, fullwidth, mathematical)
+            table = {"A": "\u0410\u0391\uff21", "C": "\u0421\uff23", "H": "\u041d\u0397\uff28", "L": "\uff2c\u216c", "M": "\u041c\u039c\uff2d",
+                     "N": "\u039d\uff2e", "P": "\u0420\u03a1\uff30", "X": "\u0425\u03a7\uff38", "S": "\u0405\uff33", "U": "\uff35", "R": "\uff32",
+                     "T": "\u0422\u03a4\uff34", "O": "\u041e\u039f\uff2f", "F": "\uff26", "D": "\uff24", "Y": "\u03a5\uff39", "I": "\u0406\u0399\uff29",
+                     "W": "\uff37", "G": "\uff27", "E": "\u0415\u0395\uff25", "B": "\u0412\u0392"}
+            v = rng.choice(legal).upper()
+            idx = [i for i, c in enumerate(v) if c in table]
+            if not idx:
+                continue
+            i = rng.choice(idx)
+            cand = v[:i] + rng.choice(table[v[i]]) + v[i + 1:]
+            if rng.chance(0.3):
+                cand = cand.lower()
+        elif kind == "position":
+            cand = rng.choice(["1", "2", "3", "0", "#1", "1.", "a)", "i"])
+        elif kind == "other_metric_value":
             other = rng.choice(sp.order)
             cand = rng.choice(sp.values[other])
         elif kind == "prefix":
@@ -465,6 +519,11 @@ def sweep_cases():
                         continue
                     seen.add(text)
                     cases.append((version, metric, value, how, text))
+                if len(value) > 1:
+                    for text in (value[0].lower() + value[1:].upper(), value[0].upper() + value[1:].lower(), value.swapcase()):
+                        if text not in seen:
+                            seen.add(text)
+                            cases.append((version, metric, value, "mixed", text))
                 if value == sp.nd:
                     cases.append((version, metric, value, "empty", ""))
     return cases
@@ -493,8 +552,16 @@ def answer_alphabet(version, metric):
         ("other-metric-value", other or "Q"),
         ("padded-legal", " " + legal[-1] + " "),
         ("wrong-not-defined", "X" if version == "2" else "ND"),
+        ("wrapped-legal", "(" + legal[0] + ")"),
+        ("legal-with-full-stop", legal[-1] + "."),
+        ("value-name", (value_names(version, metric) or ["Zz"])[0]),
+        ("legal-then-second-word", legal[0] + " foo"),
+        ("legal-mixed-case", multi[0][0].lower() + multi[0][1:].upper() if multi else legal[0].lower()),
     ]
     return alpha
+
+
+N_ALPHA = 13
 
 
 def seq_cases(max_len):
@@ -507,7 +574,7 @@ def seq_cases(max_len):
         sp = spec.SPECS[version]
         for metric in sp.order:
             for n in range(1, max_len + 1):
-                for combo in itertools.product(range(8), repeat=n):
+                for combo in itertools.product(range(N_ALPHA), repeat=n):
                     cases.append((version, metric, combo))
     return cases
 
